@@ -10,7 +10,7 @@ import sys
 
 pid, x = sys.argv[1], sys.argv[2]
 feat = ' '.join(sys.argv[3:])
-wt = '/tmp/wt-%s' % pid
+wt = (os.environ.get('SEED_WT_PREFIX') or '/tmp/wt-') + pid
 here = os.path.dirname(os.path.abspath(__file__))
 r = subprocess.run('%s/confirm_seed.sh %s %s %s' % (here, wt, x, feat), shell=True, capture_output=True, text=True)
 out = [l for l in r.stdout.split('\n') if l and not l.startswith('WARNING')]
